@@ -148,9 +148,9 @@ func (g *Gen) earlierFrames(t *Type) []byte {
 
 func frameSuite(pid string) func(o *Out, g *Gen, thorough bool) map[string]any {
 	return func(o *Out, g *Gen, thorough bool) map[string]any {
-		per := 2
+		per := 4
 		if thorough {
-			per = 12
+			per = 40
 		}
 		for _, t := range frameTypes() {
 			if pid == "C05" && t.Frame.Cks == "" {
@@ -204,9 +204,9 @@ func init() {
 	suites["C04"] = frameSuite("C04")
 	suites["C05"] = frameSuite("C05")
 	suites["C06"] = func(o *Out, g *Gen, thorough bool) map[string]any {
-		per := 6
+		per := 16
 		if thorough {
-			per = 120
+			per = 300
 		}
 		var all []*Val
 		for _, t := range schema.Types {
@@ -300,9 +300,9 @@ func init() {
 // ---- C07: decoding consumes exactly one message; streams ----
 func init() {
 	suites["C07"] = func(o *Out, g *Gen, thorough bool) map[string]any {
-		per := 8
+		per := 16
 		if thorough {
-			per = 150
+			per = 300
 		}
 		vals := canonValues(g, per)
 		vals = append(vals, bigListValues(g, thorough)...)
